@@ -115,7 +115,7 @@ fn check_overlay(rt: &tokio::runtime::Runtime, out: &mut Out, w: &World, k: usiz
 				// decoded independently of the code under test; the expected content also from the tile spec
 				let da = indep_decompress(a.as_slice(), params.tile_compression).ok_or(());
 				let db = indep_decompress(b.as_slice(), comps[*i]).ok_or(());
-				let spec_raw = w.specs[*i].tiles.get(&(c.z, c.x, c.y)).map(|idv| make_blob(*idv));
+				let spec_raw = served_tiles(&w.specs[*i]).get(&(c.z, c.x, c.y)).map(|idv| make_blob(*idv));
 				match (da, db) {
 					(Ok(x), Ok(_)) if spec_raw.as_ref().map_or(false, |r| r.as_slice() != x.as_slice()) => {
 						Some(("wrong_content", format!("the decoded tile ({} bytes) is not the stored tile of source {i} ({} bytes)", x.len(), spec_raw.map_or(0, |r| r.len()))))
@@ -224,7 +224,7 @@ pub fn run(args: &Args) {
 		if wi % 4 == 3 {
 			let c = specs[0].comp;
 			for s in specs.iter_mut() {
-				if s.kind != "mbtiles" || c == 1 {
+				if base_kind(&s.kind) != "mbtiles" || c == 1 {
 					s.comp = c;
 				}
 			}
@@ -262,6 +262,11 @@ pub fn run(args: &Args) {
 		if k >= 3 {
 			pipes.push(format!("L0,L1,O2,{},O{}", (2..k).map(|i| format!("L{i}")).collect::<Vec<_>>().join(","), k - 1));
 		}
+		// a source overlaid with itself (the same file opened by two readers), an overlay that ends in from_debug
+		if wi % 3 == 0 {
+			pipes.push("L0,L0,O2".to_string());
+			pipes.push(format!("{},D1,O{}", (0..k).map(|i| format!("L{i}")).collect::<Vec<_>>().join(","), k + 1));
+		}
 		// too few sources
 		if wi % 5 == 0 {
 			pipes.push("L0,O1".to_string());
@@ -280,7 +285,7 @@ pub fn run(args: &Args) {
 			let mut specs2 = specs.clone();
 			specs2[1].fmt = 2;
 			specs2[1].comp = 0;
-			if specs2[1].kind == "mbtiles" || specs2[0].kind == "mbtiles" {
+			if base_kind(&specs2[1].kind) == "mbtiles" || base_kind(&specs2[0].kind) == "mbtiles" {
 				specs2[1].kind = "mem".into();
 			}
 			let w2 = World::build(&rt, &scratch, &specs2);
@@ -291,6 +296,7 @@ pub fn run(args: &Args) {
 			w2.cleanup();
 		}
 	}
+	out.notes.push("checklist: (1) 32x32 sub-box and 256-block borders: boxes sampled around tiles incl. multiples of 256 +-1; the systematic 31/32/33/63/64/65 widths at offsets 0/1/31 mod 32 run in C02 part C over overlays; (2) faulty leaves under an overlay are outside the statement (lookup Err, stream falls through) – see C02 notes; (3) payload classes via tsrc styles (duplicates, 999/1000/1001, two-layer, 500 KB repetitive); (4) filters below/above, overlay of overlays, overlay ending in from_debug; (5) a source overlaid with itself (same file, two readers), every 4th box streamed twice; (6) straggler sources (reverse completion order), concurrent streams on one operation; (8) levels up to 31 via gen_coords; (9) sources written by the independent versatiles encoder (vtx) and behind TilesConvertReader; (10) stream vs lookups, parameters vs delivered tiles, declared compression vs decodability, coverage union".to_string());
 	let _ = std::fs::remove_dir_all(&scratch);
 	out.finish();
 }
